@@ -399,7 +399,8 @@ Definition d_terminal (s : dstate) : Prop :=
 Lemma terminal : forall a local ok stream t chunks,
   d_terminal (d_state (download_session a local ok stream t chunks)).
 Proof.
-  intros. unfold d_terminal, download_session, download_core.
+  intros. unfold d_terminal, download_session, download_core, dl_nosize_state, dl_offset_fail_state,
+    dl_done_state, dl_read_error_state.
   destruct a; [|cbn; auto 6]. destruct ok; cbn [negb]; [|cbn; auto 6].
   destruct (recv _ _ 0). cbn. repeat destr_if; auto 6.
 Qed.
@@ -487,7 +488,8 @@ Definition u_terminal (s : ustate) : Prop := s = UComplete \/ s = UFailed \/ s =
 Lemma upload_terminal : forall src fsz off grant cut,
   u_terminal (u_state (upload_session src fsz off grant cut true)).
 Proof.
-  intros src fsz off grant cut. unfold u_terminal, upload_session, upload_core.
+  intros src fsz off grant cut. unfold u_terminal, upload_session, upload_core, ul_offset_fail_state,
+    ul_seek_error_handled, ul_file_error_state, ul_write_error_state, ul_done_state.
   destruct off as [o|]; [|cbn; auto].
   destruct (N.leb 9223372036854775808 o); [cbn; auto|].
   destruct (send_loop _ cut 0) as [w ok]. destruct ok; cbn; [destr_if|]; auto.
@@ -502,3 +504,98 @@ Proof.
   change (2 ^ 63)%N with 9223372036854775808%N in H.
   destruct (N.leb_spec 9223372036854775808 o); [now cbn|lia].
 Qed.
+
+(* ---- the offset on the wire, as the uploader reads it ---------------------------------------- *)
+
+Lemma le_length : forall w v, length (le w v) = w.
+Proof. induction w as [|w IH]; intros v; cbn [le length]; [reflexivity|now rewrite IH]. Qed.
+
+Lemma firstn_exact : forall (l r : bytes), firstn (length l) (l ++ r) = l.
+Proof. induction l as [|x l IH]; intros r; cbn; [reflexivity|now rewrite IH]. Qed.
+
+(* whatever the TCP segmentation of the downloader's bytes, the uploader reads the offset that was
+   sent (readexactly) *)
+Lemma read_offset_segments : forall o segs rest, (o < 2 ^ 64)%N ->
+  concat segs = le 8 o ++ rest -> read_offset segs = Some o.
+Proof.
+  intros o segs rest Ho H. unfold read_offset, offset_read_exact, offset_read_width. rewrite H.
+  rewrite app_length, le_length. replace (8 + length rest <? 8)%nat with false by (symmetry; apply Nat.ltb_ge; lia).
+  rewrite takeN_firstn. change (N.to_nat (N.of_nat 8)) with 8%nat.
+  replace (firstn 8 (le 8 o ++ rest)) with (firstn (length (le 8 o)) (le 8 o ++ rest)) by (now rewrite le_length).
+  rewrite firstn_exact. f_equal. apply le_decode_le. exact Ho.
+Qed.
+
+Lemma read_offset_short : forall segs, (length (concat segs) < 8)%nat -> read_offset segs = None.
+Proof.
+  intros segs H. unfold read_offset, offset_read_exact, offset_read_width.
+  replace (length (concat segs) <? 8)%nat with true by (symmetry; apply Nat.ltb_lt; lia). reflexivity.
+Qed.
+
+Lemma complete_sound_upload_wire : forall src fsz o segs rest grant cut pc, (o < 2 ^ 64)%N ->
+  concat segs = le 8 o ++ rest ->
+  u_state (upload_session_wire src fsz segs grant cut pc) = UComplete ->
+  pc = true /\ u_wire (upload_session_wire src fsz segs grant cut pc) = skipn (N.to_nat o) src.
+Proof.
+  intros src fsz o segs rest grant cut pc Ho H. unfold upload_session_wire.
+  rewrite (read_offset_segments o segs rest Ho H). intros Hc.
+  destruct (complete_sound_upload _ _ _ _ _ _ Hc) as (o' & E & Hp & Hw & _). inv E. auto.
+Qed.
+
+(* The uploader has no timeout of its own while it waits for the peer to close: if every byte went
+   out and the peer neither closes nor breaks the connection, the upload stays UPLOADING. *)
+Lemma upload_stuck_without_close : forall src fsz o grant, (o < 2 ^ 63)%N ->
+  u_state (upload_session src fsz (Some o) grant None false) = UStuck.
+Proof.
+  intros src fsz o grant H. unfold upload_session, upload_core, ul_waits_eof, eof_wait_bounded.
+  change (2 ^ 63)%N with 9223372036854775808%N in H.
+  destruct (N.leb_spec 9223372036854775808 o); [lia|].
+  rewrite send_loop_nocut. reflexivity.
+Qed.
+
+(* ---- the pair over several attempts ------------------------------------------------------------ *)
+
+Lemma pair_download_honest_state : forall src local f ch,
+  prefix local src -> not_eof f = true ->
+  d_state (pair_download src local f ch) = DComplete \/ d_state (pair_download src local f ch) = DIncomplete.
+Proof.
+  intros src local f ch H Hf. unfold pair_download. pose proof (rest_len _ _ H) as Hr.
+  set (rest := dropN (Z.to_N (len local)) src) in *.
+  destruct f as [|k|k]; [| |discriminate].
+  - destruct (no_excess_all_kept (len src) local rest TTimeout ch) as (_ & _ & C); [left; lia|].
+    rewrite C. cbn [orb]. rewrite orb_false_r. repeat destr_if; auto; lia.
+  - pose proof (prefix_len _ _ (takeN_prefix k rest)) as Hk.
+    destruct (no_excess_all_kept (len src) local (takeN k rest) TReset ch) as (_ & _ & C); [left; lia|].
+    rewrite C. rewrite orb_false_r. repeat destr_if; auto; lia.
+Qed.
+
+Lemma pair_run_safe : forall fs src local,
+  prefix local src ->
+  let '(l, s, _) := pair_run src local fs in prefix l src /\ (s = DComplete -> l = src).
+Proof.
+  induction fs as [|[f ch] r IH]; intros src local H; cbn [pair_run].
+  - split; [now apply pair_download_prefix|now apply pair_complete_sound].
+  - destruct (retried (d_state (pair_download src local f ch))).
+    + specialize (IH src (d_local (pair_download src local f ch)) (pair_download_prefix _ _ f ch H)).
+      destruct (pair_run src (d_local (pair_download src local f ch)) r) as [[l s] n]. exact IH.
+    + split; [now apply pair_download_prefix|now apply pair_complete_sound].
+Qed.
+
+(* resets, read timeouts and unsendable offsets, in any number, at any byte: the pair ends COMPLETE
+   with the identical file without user action *)
+Lemma pair_eventual : forall fs src local,
+  prefix local src -> forallb (fun x => not_eof (fst x)) fs = true ->
+  exists n, pair_run src local fs = (src, DComplete, n).
+Proof.
+  induction fs as [|[f ch] r IH]; intros src local H Hf; cbn [pair_run].
+  - destruct (fault_free_completes src local [] H) as [-> ->]. now exists 1%nat.
+  - cbn [forallb fst] in Hf. apply andb_prop in Hf. destruct Hf as [Hf Hr].
+    destruct (pair_download_honest_state src local f ch H Hf) as [E|E]; rewrite E; cbn [retried].
+    + rewrite (pair_complete_sound src local f ch H E). now exists 1%nat.
+    + destruct (IH src (d_local (pair_download src local f ch)) (pair_download_prefix _ _ f ch H) Hr) as [n ->].
+      now exists (S n).
+Qed.
+
+(* ... but not after a clean close (EOF) before the end: finding C04-N1 *)
+Lemma pair_eventual_refuted : exists src local fs,
+  prefix local src /\ pair_run src local fs = ([1]%N, DFailedCancelled, 1%nat) /\ src <> [1]%N.
+Proof. exists [1;2]%N, [], [(CutEof 1, [])]. split; [apply prefix_nil|]. split; [reflexivity|discriminate]. Qed.
